@@ -110,6 +110,7 @@ impl FixtureDatabase {
                         local_vars.entry(name).or_insert(line);
                     }
                     self.collect_local_variables(&for_stmt.body, line_index, local_vars);
+                    self.collect_local_variables(&for_stmt.orelse, line_index, local_vars);
                 }
                 Stmt::AsyncFor(for_stmt) => {
                     let line =
@@ -120,9 +121,11 @@ impl FixtureDatabase {
                         local_vars.entry(name).or_insert(line);
                     }
                     self.collect_local_variables(&for_stmt.body, line_index, local_vars);
+                    self.collect_local_variables(&for_stmt.orelse, line_index, local_vars);
                 }
                 Stmt::While(while_stmt) => {
                     self.collect_local_variables(&while_stmt.body, line_index, local_vars);
+                    self.collect_local_variables(&while_stmt.orelse, line_index, local_vars);
                 }
                 Stmt::If(if_stmt) => {
                     self.collect_local_variables(&if_stmt.body, line_index, local_vars);
@@ -158,6 +161,10 @@ impl FixtureDatabase {
                 }
                 Stmt::Try(try_stmt) => {
                     self.collect_local_variables(&try_stmt.body, line_index, local_vars);
+                    for handler in &try_stmt.handlers {
+                        let rustpython_parser::ast::ExceptHandler::ExceptHandler(h) = handler;
+                        self.collect_local_variables(&h.body, line_index, local_vars);
+                    }
                     self.collect_local_variables(&try_stmt.orelse, line_index, local_vars);
                     self.collect_local_variables(&try_stmt.finalbody, line_index, local_vars);
                 }
@@ -178,6 +185,11 @@ impl FixtureDatabase {
             Stmt::AugAssign(aug_assign) => {
                 self.visit_expr_for_names(&aug_assign.value, ctx);
             }
+            Stmt::AnnAssign(ann_assign) => {
+                if let Some(ref value) = ann_assign.value {
+                    self.visit_expr_for_names(value, ctx);
+                }
+            }
             Stmt::Return(ret) => {
                 if let Some(ref value) = ret.value {
                     self.visit_expr_for_names(value, ctx);
@@ -194,13 +206,13 @@ impl FixtureDatabase {
             }
             Stmt::While(while_stmt) => {
                 self.visit_expr_for_names(&while_stmt.test, ctx);
-                for stmt in &while_stmt.body {
+                for stmt in while_stmt.body.iter().chain(&while_stmt.orelse) {
                     self.visit_stmt_for_names(stmt, ctx);
                 }
             }
             Stmt::For(for_stmt) => {
                 self.visit_expr_for_names(&for_stmt.iter, ctx);
-                for stmt in &for_stmt.body {
+                for stmt in for_stmt.body.iter().chain(&for_stmt.orelse) {
                     self.visit_stmt_for_names(stmt, ctx);
                 }
             }
@@ -214,7 +226,7 @@ impl FixtureDatabase {
             }
             Stmt::AsyncFor(for_stmt) => {
                 self.visit_expr_for_names(&for_stmt.iter, ctx);
-                for stmt in &for_stmt.body {
+                for stmt in for_stmt.body.iter().chain(&for_stmt.orelse) {
                     self.visit_stmt_for_names(stmt, ctx);
                 }
             }
@@ -230,6 +242,23 @@ impl FixtureDatabase {
                 self.visit_expr_for_names(&assert_stmt.test, ctx);
                 if let Some(ref msg) = assert_stmt.msg {
                     self.visit_expr_for_names(msg, ctx);
+                }
+            }
+            Stmt::Try(try_stmt) => {
+                for stmt in &try_stmt.body {
+                    self.visit_stmt_for_names(stmt, ctx);
+                }
+                for handler in &try_stmt.handlers {
+                    let rustpython_parser::ast::ExceptHandler::ExceptHandler(h) = handler;
+                    for stmt in &h.body {
+                        self.visit_stmt_for_names(stmt, ctx);
+                    }
+                }
+                for stmt in &try_stmt.orelse {
+                    self.visit_stmt_for_names(stmt, ctx);
+                }
+                for stmt in &try_stmt.finalbody {
+                    self.visit_stmt_for_names(stmt, ctx);
                 }
             }
             _ => {}
@@ -286,6 +315,19 @@ impl FixtureDatabase {
                 self.visit_expr_for_names(&call.func, ctx);
                 for arg in &call.args {
                     self.visit_expr_for_names(arg, ctx);
+                }
+                for keyword in &call.keywords {
+                    self.visit_expr_for_names(&keyword.value, ctx);
+                }
+            }
+            Expr::BoolOp(boolop) => {
+                for value in &boolop.values {
+                    self.visit_expr_for_names(value, ctx);
+                }
+            }
+            Expr::Set(set) => {
+                for elt in &set.elts {
+                    self.visit_expr_for_names(elt, ctx);
                 }
             }
             Expr::Attribute(attr) => {
